@@ -572,7 +572,25 @@ func resolveWholeRule(c *Ctx) {
 	info := c.info(fi)
 	ast.Inspect(fi.Decl.Body, func(nd ast.Node) bool {
 		ta, ok := nd.(*ast.TypeAssertExpr)
-		if !ok || ta.Type == nil || !core.IsSpecType(info.TypeOf(ta.Type), "Parameter") {
+		if !ok {
+			return true
+		}
+		if ta.Type == nil {
+			// switch p := obj.(type) { case spec.Parameter: … }
+			isParamSwitch := false
+			if ts, isTS := c.parents(fi).Enclosing(ta, func(x ast.Node) bool { _, y := x.(*ast.TypeSwitchStmt); return y }).(*ast.TypeSwitchStmt); isTS {
+				for _, cl := range ts.Body.List {
+					for _, t := range cl.(*ast.CaseClause).List {
+						if tt := info.TypeOf(t); tt != nil && core.IsSpecType(tt, "Parameter") {
+							isParamSwitch = true
+						}
+					}
+				}
+			}
+			if !isParamSwitch {
+				return true
+			}
+		} else if !core.IsSpecType(info.TypeOf(ta.Type), "Parameter") {
 			return true
 		}
 		n++
